@@ -385,7 +385,7 @@ func ownSelected(c Case, labelsNew map[string]string) bool {
 type refOpt struct{ api, kind, name string }
 
 func gRollouts(t *rapid.T, id ident, allowBlueGreen bool) []*v1beta1.Rollout {
-	n := rapid.SampledFrom([]int{0, 1, 1, 1, 1, 2, 2, 3}).Draw(t, "rollouts")
+	n := rapid.SampledFrom([]int{0, 1, 1, 1, 1, 1, 2, 2, 2, 3}).Draw(t, "rollouts")
 	otherVersion := map[string]string{"apps": "apps/v1beta2", "apps.kruise.io": "apps.kruise.io/v1", "example.io": "example.io/v2"}[id.Group]
 	otherKind := "CloneSet"
 	if id.Kind == "CloneSet" {
@@ -402,7 +402,15 @@ func gRollouts(t *rapid.T, id ident, allowBlueGreen bool) []*v1beta1.Rollout {
 			r.Namespace = "other-ns"
 		}
 		ref := refOpt{id.apiVersion(), id.Kind, wlName}
-		switch rapid.SampledFrom([]string{"match", "match", "match", "match", "match", "match", "match-other-version", "other-name", "other-kind", "other-group", "bad-apiversion", "core-apiversion"}).Draw(t, l+"ref") {
+		refOpts := []string{"match", "match", "match", "match", "match", "match", "match", "match", "match-other-version", "other-name", "other-kind", "other-group", "bad-apiversion", "core-apiversion"}
+		lifeOpts := []string{"active", "active", "active", "active", "active", "active", "active", "active", "deleting", "deleting", "disabled", "disabled", "disable-pending", "enable-pending"}
+		if i == 0 { // the first Rollout is biased towards the interesting region: it references the workload and is active
+			for k := 0; k < 22; k++ {
+				refOpts = append(refOpts, "match")
+				lifeOpts = append(lifeOpts, "active")
+			}
+		}
+		switch rapid.SampledFrom(refOpts).Draw(t, l+"ref") {
 		case "match-other-version":
 			ref.api = otherVersion
 		case "other-name":
@@ -417,7 +425,7 @@ func gRollouts(t *rapid.T, id ident, allowBlueGreen bool) []*v1beta1.Rollout {
 			ref.api = "v1"
 		}
 		r.Spec.WorkloadRef = v1beta1.ObjectRef{APIVersion: ref.api, Kind: ref.kind, Name: ref.name}
-		switch rapid.SampledFrom([]string{"active", "active", "active", "active", "active", "active", "deleting", "deleting", "disabled", "disabled", "disable-pending", "enable-pending"}).Draw(t, l+"life") {
+		switch rapid.SampledFrom(lifeOpts).Draw(t, l+"life") {
 		case "active":
 			r.Status.Phase = rapid.SampledFrom([]v1beta1.RolloutPhase{"", v1beta1.RolloutPhaseInitial, v1beta1.RolloutPhaseHealthy, v1beta1.RolloutPhaseProgressing, v1beta1.RolloutPhaseTerminating}).Draw(t, l+"phase")
 		case "deleting":
@@ -572,6 +580,17 @@ func decide(c Case, v *verdict, perRollout func(r *v1beta1.Rollout) string) {
 	default:
 		v.Class = "unchanged:no-active-rollout"
 	}
+}
+
+// hasActiveRollout: some Rollout that is definitely active (and has something to release with)
+// references the workload.
+func hasActiveRollout(c Case) bool {
+	for _, r := range c.Rollouts {
+		if refMatches(r, c.ID) && refLiveness(r) == "active" && !refEmptyStrategy(r) {
+			return true
+		}
+	}
+	return false
 }
 
 func rolloutNameOf(ann string) string {
@@ -797,11 +816,7 @@ func run(t vlib.TB, chk string, c Case, v verdict) {
 	switch {
 	case len(v.Held) == 0:
 		pj, _ := json.Marshal(resp.Patches)
-		sig := "c08-unexpected-mutation-" + strings.TrimPrefix(v.Class, "unchanged:")
-		if v.KnownClass == "c08-unified-zero-replicas-held" {
-			sig = v.KnownClass
-		}
-		vlib.Fail(t, chk, sig, c, "expected the %s update to be admitted unchanged (%s) but the webhook patched it: %s", c.ID.Kind, v.Class, pj)
+		vlib.Fail(t, chk, "c08-unexpected-mutation-"+strings.TrimPrefix(v.Class, "unchanged:"), c, "expected the %s update to be admitted unchanged (%s) but the webhook patched it: %s", c.ID.Kind, v.Class, pj)
 	case !patched:
 		vlib.Fail(t, chk, "c08-not-held-"+c.ID.Kind, c, "release change of a selected %s with an active Rollout was admitted without being held (%s)", c.ID.Kind, strings.Join(why, "; "))
 	default:
@@ -838,7 +853,10 @@ func ensureMap(o obj, path ...string) {
 	setPath(o, obj{}, path...)
 }
 
-func setLabel(o obj, k, v string) { ensureMap(o, "metadata", "labels"); setPath(o, v, "metadata", "labels", k) }
+func setLabel(o obj, k, v string) {
+	ensureMap(o, "metadata", "labels")
+	setPath(o, v, "metadata", "labels", k)
+}
 func setAnn(o obj, k, v string) {
 	ensureMap(o, "metadata", "annotations")
 	setPath(o, v, "metadata", "annotations", k)
@@ -847,7 +865,7 @@ func setAnn(o obj, k, v string) {
 func baseTemplate(t *rapid.T) obj {
 	tm := obj{
 		"metadata": obj{"labels": obj{"app": wlName}},
-		"spec": obj{"containers": []any{obj{"name": "main", "image": "img:v1", "resources": obj{"requests": obj{"cpu": "1"}}}}},
+		"spec":     obj{"containers": []any{obj{"name": "main", "image": "img:v1", "resources": obj{"requests": obj{"cpu": "1"}}}}},
 	}
 	if rapid.IntRange(0, 3).Draw(t, "tmpl-has-hash") == 0 {
 		setPath(tm, "5b494f7bf", "metadata", "labels", hashLabel)
@@ -867,7 +885,7 @@ func container0(o obj) obj {
 // changed semantically (ignoring the pod-template-hash label, nil-vs-empty maps and quantity
 // spelling — none of which makes a controller produce a new revision).
 func gTemplateEdits(t *rapid.T, o obj, crd bool) (changed bool, edits []string) {
-	mode := rapid.SampledFrom([]string{"real", "real", "real", "cosmetic", "none", "none"}).Draw(t, "tmpl-mode")
+	mode := rapid.SampledFrom([]string{"real", "real", "real", "real", "real", "real", "cosmetic", "cosmetic", "none", "none"}).Draw(t, "tmpl-mode")
 	if mode == "real" {
 		for _, e := range rapid.SliceOfNDistinct(rapid.SampledFrom([]string{"image", "env", "label", "annotation"}), 1, 2, rapid.ID[string]).Draw(t, "tmpl-edits") {
 			switch e {
@@ -930,14 +948,14 @@ func gRolloutID(t *rapid.T, oldO, newO obj) []string {
 }
 
 func gWebhook(t *rapid.T, c *Case) {
-	c.WebhookVariant = rapid.SampledFrom([]string{"shipped", "shipped", "shipped", "shipped", "shipped", "shipped", "unpatched", "team", "team", "no-own", "foreign"}).Draw(t, "webhook-variant")
+	c.WebhookVariant = rapid.SampledFrom([]string{"shipped", "shipped", "shipped", "shipped", "shipped", "shipped", "shipped", "shipped", "shipped", "shipped", "shipped", "shipped", "shipped", "shipped", "shipped", "shipped", "unpatched", "unpatched", "unpatched", "team", "team", "team", "no-own", "foreign"}).Draw(t, "webhook-variant")
 	c.Webhook = webhookConfig(c.WebhookVariant, c.OwnEntry)
 }
 
 // gSelectionLabels puts the labels the object selectors look at on old and new.
 func gSelectionLabels(t *rapid.T, oldO, newO obj, typeValue string, variant string) []string {
 	var edits []string
-	switch rapid.SampledFrom([]string{"both", "both", "both", "both", "both", "both", "both", "both", "neither", "only-new", "only-old"}).Draw(t, "wt-label") {
+	switch rapid.SampledFrom([]string{"both", "both", "both", "both", "both", "both", "both", "both", "both", "both", "both", "both", "both", "both", "both", "both", "neither", "only-new", "only-old"}).Draw(t, "wt-label") {
 	case "both":
 		setLabel(oldO, lblWorkloadType, typeValue)
 		setLabel(newO, lblWorkloadType, typeValue)
@@ -952,7 +970,7 @@ func gSelectionLabels(t *rapid.T, oldO, newO obj, typeValue string, variant stri
 	}
 	teamP := 1
 	if variant == "team" {
-		teamP = 8
+		teamP = 9
 	}
 	if rapid.IntRange(0, 9).Draw(t, "team-label") < teamP {
 		setLabel(oldO, "team", "a")
